@@ -410,10 +410,14 @@ impl BoundsAnalyzer {
                     }
                     VariableType::IntegerRange(lower as i32, upper as i32)
                 }
+                // `+ 0.0` turns a negative zero into zero, which is rendered
+                // and re-read as the same bound
                 VariableType::NonNegativeReal(_, _) => {
-                    VariableType::NonNegativeReal(bounds.lower.max(0.0), bounds.upper)
+                    VariableType::NonNegativeReal(bounds.lower.max(0.0) + 0.0, bounds.upper + 0.0)
                 }
-                VariableType::Real(_, _) => VariableType::Real(bounds.lower, bounds.upper),
+                VariableType::Real(_, _) => {
+                    VariableType::Real(bounds.lower + 0.0, bounds.upper + 0.0)
+                }
             };
             variable.set_type(tightened_type);
         }
